@@ -4,6 +4,7 @@ import UralModel.Py.Split
 import UralModel.Py.Re
 import UralModel.Model.Protocol
 import UralModel.Model.Builders
+import UralModel.Model.UrlParts
 import UralModel.Gen.C19FacebookTables
 /-!
 # Model of `ural/facebook.py` (property C19, part `facebook`)
@@ -30,8 +31,9 @@ Conventions (DESIGN.md §4):
   (`FACEBOOK_ID_RE`, `FACEBOOK_FULL_ID_RE`, `FACEBOOK_DOMAIN_RE` as `search`,
   `MOBILE_REPLACE_RE` as `sub`, `URL_EXTRACT_RE` as `search` + group 2), except
   `MISTAKES_RE.sub("&", query)` (`fix_common_query_mistakes`) which is the hand-written
-  `fixMistakes` (the round-trip theorems reason about it); the driver runs the generic
-  substitution next to it on every input (three-way comparison with the real `re`).
+  `fixMistakes`, and `SLASH_SQUEEZE_RE.sub("/", path)` which is the hand-written
+  `UrlParts.squeezeSlashes` (the round-trip theorems reason about both); the driver runs the
+  generic substitution next to them on every input (three-way comparison with the real `re`).
 -/
 namespace Ural.Facebook
 open Ural.Py Ural
@@ -218,7 +220,8 @@ def convert_facebook_url_to_mobile (url : Str) : Except Err Str :=
   match urlsplit safe_url with
   | none => .error .typeError
   | some sp =>
-    if !contains sp.netloc (lit "facebook") then .error .typeError
+    -- `"facebook" not in splitted.netloc.lower()`
+    if !contains (lower sp.netloc) (lit "facebook") then .error .typeError
     else
       let netloc := reSub MOBILE_REPLACE_RE (lit "m.facebook.") sp.netloc
       let result := urlunsplit20 sp.scheme netloc sp.path sp.query sp.fragment
@@ -295,11 +298,14 @@ abbrev Result := Except Err (Option Parsed)
 /-- `next((s for s in sets if s.startswith(p)), None)` -/
 def firstWithPrefix (sets : List Str) (p : Str) : Option Str := sets.find? fun x => startsWith x p
 
-/-- `x = next(...)`; `if x: x = x.split(p, 1)[1]` — facebook.py:367-375 -/
+/-- `y or None` for a `str` -/
+def orNone (y : Str) : Option Str := if y.isEmpty then none else some y
+
+/-- `x = next(...)`; `if x: x = x.split(p, 1)[1] or None` — facebook.py:371-381 -/
 def setId (sets : List Str) (p : Str) : Except Err (Option Str) :=
   match firstWithPrefix sets p with
   | none => .ok none
-  | some x => if x.isEmpty then .ok (some x) else (getIdx (splitStr1 x p) 1).map some
+  | some x => if x.isEmpty then .ok (some x) else (getIdx (splitStr1 x p) 1).map orNone
 
 /-- facebook.py:333-341 -/
 def routeWatch (query : Str) : Result :=
@@ -338,17 +344,23 @@ def routePhotoQuery (query : Str) : Result :=
     let id ← getIdx fbids 0
     return some (.photo id ga.1 none none ga.2)
 
-/-- facebook.py:379-396 -/
+/-- `if album_id.startswith("a."): album_id = album_id[2:]` — facebook.py:394-396 -/
+def albumOf (p2 : Str) : Str := if startsWith p2 (lit "a.") then p2.drop 2 else p2
+
+/-- facebook.py:385-410 -/
 def routePhotos (path : Str) : Result :=
   let parts := pathsplit path
   if parts.length < 4 then .ok none
   else do
     let parent ← getIdx parts 0
     let p2 ← getIdx parts 2
-    let album_id := replace p2 (lit "a.") []
-    let photo_id ← getIdx parts 3
-    if is_facebook_id parent then return some (.photo photo_id none (some parent) none (some album_id))
-    else return some (.photo photo_id none none (some parent) (some album_id))
+    let album_id := albumOf p2
+    -- `if not album_id: return None`
+    if album_id.isEmpty then return none
+    else do
+      let photo_id ← getIdx parts 3
+      if is_facebook_id parent then return some (.photo photo_id none (some parent) none (some album_id))
+      else return some (.photo photo_id none none (some parent) (some album_id))
 
 /-- facebook.py:399-420 -/
 def routePosts (path : Str) : Result :=
@@ -443,6 +455,10 @@ def parseSplit (sp : SplitResult) : Result :=
   else if startsWith path (lit "/people") then routePeople path
   else routeHandle path
 
+/-- `splitted._replace(path=SLASH_SQUEEZE_RE.sub("/", splitted.path))` — facebook.py:331-333
+(`SLASH_SQUEEZE_RE` is `\/{2,}`: table obligation `patterns_unchanged`) -/
+def squeezePath (sp : SplitResult) : SplitResult := { sp with path := UrlParts.squeezeSlashes sp.path }
+
 /-- the first step of `parse_facebook_url` — facebook.py:310-322: the url to split, or `None`
 (`.ok none`) when the function returns `None` at once -/
 def resolveUrl (url : Str) (allow_relative_urls : Bool) : Except Err (Option Str) :=
@@ -463,7 +479,8 @@ def parse_facebook_url (url : Str) (allow_relative_urls : Bool := false) : Resul
     match catchValueError ((safeUrlsplitE url).map some) none with
     | .error e => .error e
     | .ok none => .ok none
-    | .ok (some sp) => parseSplit sp
+    | .ok (some sp) =>
+      parseSplit (squeezePath sp)
 
 /-- `isinstance(result, FACEBOOK_TYPES_HAVING_COMMENTS)` -/
 def hasComments : Option Parsed → Bool
